@@ -70,6 +70,12 @@ def case(draw):
         last_mtime = draw(st.sampled_from(
             [BASE_MTIME - 100, BASE_MTIME, BASE_MTIME + 25, BASE_MTIME + 50,
              BASE_MTIME + 100, BASE_MTIME + 200]))
+        # ... or next to an actual file mtime, also within the same second
+        known = [n['m'] for n in spec['nodes'] if 'm' in n] + [
+            o['m'] for o in muts if 'm' in o]
+        if known and draw(st.booleans()):
+            last_mtime = draw(st.sampled_from(known)) + draw(
+                st.sampled_from([-1, -0.5, -0.25, 0, 0.25, 0.5]))
     nfiles = sum(1 for v in vis.values() if v[0] == 'f')
     return {'tree': spec, 'manifests': rendered, 'muts': muts,
             'subpath': subpath, 'subpath2': subpath2,
